@@ -5,7 +5,7 @@
    on what [mid] returns, which is why rounding or overflow of the mid-lines
    cannot lose a segment. *)
 From Coq Require Import Sorting.Permutation.
-From GJ Require Import Base Kernel Index QTreeProofs RTreeProofs CodecQProofs CodecRProofs.
+From GJ Require Import Base Kernel Series SeriesSpec Index IndexExec QTreeProofs RTreeProofs CodecQProofs CodecRProofs IndexSeriesProofs.
 
 (* quadtree built by successive inserts of items 0..n-1 (qtree.go:insert):
    a search reports exactly the items whose rectangle meets the query *)
@@ -91,6 +91,25 @@ Theorem C04_rtree_built_shape : forall (rect_of : Z -> rect) n, Z.of_nat n <= 2 
   end.
 Proof. exact rbuild_shape. Qed.
 
+(* at the level of a series (baseSeries.Search): for EVERY index kind the reported segments are
+   a permutation of the brute-force answer - exactly the segments whose rectangle meets the query *)
+Theorem C04_series_search_exact : forall kind s q, Permutation (series_search kind s q) (search_spec s q).
+Proof. exact series_search_exact. Qed.
+Theorem C04_series_search_once : forall s q,
+  NoDup (series_search 1 s q) /\ NoDup (series_search 2 s q).
+Proof. intros s q. split; [apply series_search_rtree_exact|apply series_search_qtree_exact]. Qed.
+(* Move rebuilds rectangle and index from the moved points *)
+Theorem C04_series_search_after_move : forall kind s dx dy q,
+  Permutation (series_search kind (series_move s dx dy) q) (search_spec (series_move s dx dy) q).
+Proof. exact series_search_moved_exact. Qed.
+(* searching the compressed quadtree bytes of a series = the tree search, every read in bounds *)
+Theorem C04_series_qtree_bytes : forall sc s q,
+  Z.of_nat (length (seg_rects s)) < 2 ^ 32 -> Z.of_nat (length (build_index_bytes sc 2 s)) < 2 ^ 32 ->
+  series_search_bytes sc 2 s q = Some (series_search 2 s q).
+Proof. exact series_search_qtree_bytes. Qed.
+
+Print Assumptions C04_series_search_exact.
+Print Assumptions C04_series_qtree_bytes.
 Print Assumptions C04_qtree_search_exact.
 Print Assumptions C04_qtree_search_nodup.
 Print Assumptions C04_choose_quad.
